@@ -178,12 +178,17 @@ def socks5_plans(addr_kind, seed, tier, label):
         return g, r
     total = {"ipv4": 13, "ipv6": 25, "domain": 19}[addr_kind]
 
-    def mk(segfn, desc):
+    early = T.seeded_bytes(seed, "socks5-early/%s" % label, 10)
+
+    def mk(segfn, desc, first=b""):
         def build(tgt):
             g, r = data_for(tgt)
-            return {"segments": segfn(g, r), "reply": "socks5", "to_target_first": b"", "describe": "SOCKS5 CONNECT %s, %s" % (addr_kind, desc)}
+            return {"segments": segfn(g, r), "reply": "socks5", "to_target_first": first, "describe": "SOCKS5 CONNECT %s, %s" % (addr_kind, desc)}
         return build
     plans = [("two_segments", mk(lambda g, r: [g, 0.05, r], "greeting, 50 ms, request")),
+             # an application that does not wait for the reply: what follows the request belongs to the tunnel
+             ("early_data_coalesced", mk(lambda g, r: [g + r + early], "greeting, request and 10 bytes of tunnel payload in ONE segment", early)),
+             ("early_data_with_request", mk(lambda g, r: [g, 0.05, r + early], "greeting, 50 ms, request and 10 bytes of tunnel payload in one segment", early)),
              ("coalesced", mk(lambda g, r: [g + r], "greeting and request in ONE segment")),
              ("byte_by_byte", mk(lambda g, r: seg_bytes(g + r, 0.005), "byte by byte, 5 ms apart"))]
     positions = list(range(1, total))
@@ -225,6 +230,15 @@ def connect_variants(head, l1, size):
 
 def connect_plans(seed):
     plans = []
+    # empty lines before the request line are skipped by the request parser (RFC 9112 2.2): they belong to the handshake
+    for lead, lname in ((b"\r\n", "leading_crlf"), (b"\r\n\r\n", "leading_2crlf")):
+        for vname, segf in (("whole", lambda d: [d]), ("split_after_empty_lines", lambda d, n=len(lead): seg_split(d, n, 0.03))):
+            def build(tgt, lead=lead, segf=segf, lname=lname, vname=vname):
+                head, _ = connect_head(tgt.port, "short")
+                payload = T.seeded_bytes(seed, "connect-payload/%s/%s" % (lname, vname), 10)
+                return {"segments": segf(lead + head + payload), "reply": "connect", "to_target_first": payload, "payload_after_head": True,
+                        "describe": "HTTP CONNECT preceded by %d empty line(s), head of %d bytes, %s, 10 bytes of tunnel payload after the head" % (len(lead) // 2, len(head), vname)}
+            plans.append(("connect_%s/%s" % (lname, vname), build))
     for size in ("short", "3k"):
         for with_payload in (False, True):
             probe_head, probe_l1 = connect_head(12345, size)
